@@ -13,8 +13,8 @@ type RecoveryOptions struct {
 	// Entries with sequence numbers greater than this will be ignored
 	MaxSequenceNumber uint64
 
-	// MaxMemTables is the maximum number of MemTables to create during recovery
-	// If more MemTables would be needed, an error is returned
+	// MaxMemTables is the number of MemTables normal operation keeps in memory.
+	// Recovery creates as many as the log needs (see RecoverFromWAL)
 	MaxMemTables int
 
 	// MemTableSize is the maximum size of each MemTable
@@ -58,10 +58,12 @@ func RecoverFromWAL(cfg *config.Config, opts *RecoveryOptions) ([]*MemTable, uin
 
 		// Check if we should create a new memtable based on size
 		if current.ApproximateSize() >= opts.MemTableSize {
-			// Make sure we don't exceed the max number of memtables
-			if len(memTables) >= opts.MaxMemTables {
-				return fmt.Errorf("maximum number of memtables (%d) exceeded during recovery", opts.MaxMemTables)
-			}
+			// MaxMemTables is the budget for normal operation, not a reason to
+			// refuse a log: the log keeps growing until its files are retired,
+			// so it can hold more than MaxMemTables x MemTableSize. Failing here
+			// made the storage manager set every log file aside and open without
+			// the acknowledged writes they hold. Recover everything; the extra
+			// tables are immutable and are flushed like any other.
 
 			// Mark the current memtable as immutable
 			current.SetImmutable()
